@@ -340,6 +340,15 @@ Definition mon_C16 (c impl : val) : val :=
 Definition mon_C17 (c impl : val) : val :=
   VL (rmon_fold 17 0 (vL (vnth 2 c)) (vL impl) (mkRobs 0 [] [] [] []) (mkRtrack [] [] [] []) (map vB (vL (vnth 0 c))) (map vB (vL (vnth 1 c)))).
 
+
+(* C08: what the relayer assembles comes from the confirmation queries; a confirmation the hub has recorded for a
+   pending transaction must be served, whoever has unbonded since (the external signer set lags the hub's bonded
+   set).  C16's query predicate, reported for C08. *)
+Definition k_c08_query := rstr [67;48;56;47;115;116;111;114;101;100;45;99;111;110;102;105;114;109;97;116;105;111;110;45;110;111;116;45;115;101;114;118;101;100]. (* C08/stored-confirmation-not-served *)
+Definition mon_C08_reg (c impl : val) : val :=
+  VL (map (fun v => match v with VL (_ :: r) => VL (k_c08_query :: r) | _ => v end)
+          (filter (fun v => veqb (vnth 0 v) k_c16_query) (vL (mon_C16 c impl)))).
+
 (* ---------- genesis export / import (C15) on the registry state ---------- *)
 (* delegate keys are exported from the validator->address index and re-imported into all three maps;
    outgoing txs are exported; confirmations are not *)
